@@ -49,7 +49,7 @@ def nontrivial(run):
     return starts >= 2 and (other or overlap)
 
 
-def run_sim_property(ctx, props_files, monitor, what, deps=()):
+def run_sim_property(ctx, props_files, monitor, what, deps=(), machine=True):
     ctx.fingerprint(simcommon.SIM_FILES)
     ctx.translate(["Task", "Event"])
     ok = True
@@ -87,6 +87,10 @@ def run_sim_property(ctx, props_files, monitor, what, deps=()):
     for i, msgs in failures[:3]:
         ctx.violation("world%d" % i, {"stream": "S-sim monitor", "what": what, "failures": msgs[:5], "world": worlds[i],
                                       "run_status": runs[i]["status"]})
+    if not machine:
+        # a whole-simulation PART of a property whose theorems live on a unit-level model: the monitor above is the part;
+        # the machine tie of these same runs is established by C01-C03
+        return worlds, runs
     # 2. the tie: every call log must be accepted by the machine and end in the same state
     try:
         mism, fed = simcommon.machine_stream(ctx, worlds, runs)
